@@ -25,7 +25,7 @@ open Pywbem.Model Pywbem.Model.XmlText Pywbem.Proto Pywbem.Model.Resp
 /-- third-party / out-of-scope conversions of the response path: the C01 tables plus
     `CIMInstanceName.from_wbem_uri(s)` succeeding (pywbem code of property C07) -/
 structure EnvCodec extends DecCodec where
-  wbemUriOk : Str → Bool
+  wbemUri : Str → Option Path          -- CIMInstanceName.from_wbem_uri(s); none = ValueError
 
 /-- Python values the tuple parser hands to `_cim_operations` -/
 inductive PV where
@@ -462,69 +462,125 @@ def cimtypeOf : PV → R Str
   | .embs (.inst _ :: _) | .embs (.cls _ :: _) => pure "string".toList
   | _ => .error .typeError
 
+/-- `bool(obj)` for the objects the parser produces: CIMInstanceName / CIMInstance define `__len__`
+    (keybindings / properties), CIMClassName / CIMClass are always true, a string is true iff non-empty -/
+def pvTruth : PV → Bool
+  | .str s => !s.isEmpty
+  | .path (.inst _ _ _ keys) => !keys.isEmpty
+  | .inst (.mk _ _ props _) => !props.isEmpty
+  | _ => true
+
 /-- `type_obj(value)` for a scalar of a type other than boolean/string/char16/reference:
     numeric constructors on a string run `int(s)` / `float(s)`, CIMDateTime(s) parses; any other
     Python class of value: TypeError; unknown type name: ValueError -/
-def convScalar (ty : Str) (v : PV) : R Unit :=
+def convScalar (ty : Str) (v : PV) : R Atom :=
   match IntTy.ofName ty with
   | some t =>
     match v with
     | .str s => do
       let i ← pyIntE s
-      if t.lo ≤ i ∧ i ≤ t.hi then pure () else .error .valueError
+      if t.lo ≤ i ∧ i ≤ t.hi then pure (.int t i) else .error .valueError
     | _ => .error .typeError
   | none =>
     if ty = "real32".toList ∨ ty = "real64".toList then
       match v with
-      | .str s => if (C.parseFloat (strip s)).isSome then pure () else .error .valueError
+      | .str s => match C.parseFloat (strip s) with
+        | some b => pure (.real (ty = "real64".toList) b)
+        | none => .error .valueError
       | _ => .error .typeError
     else if ty = "datetime".toList then
       match v with
-      | .str s => if (C.parseDt s).isSome then pure () else .error .valueError
+      | .str s => match C.parseDt s with
+        | some d => pure (.dt d)
+        | none => .error .valueError
       | _ => .error .typeError
     else .error .valueError          -- type_from_name: unknown CIM data type name
 
+/-- `_ensure_unicode(value)` / the value itself, as an atom -/
+def pvAtom : PV → Atom
+  | .str s => .str s
+  | .path p => .ref p
+  | .inst i => .einst i
+  | .cls c => .ecls c
+  | _ => .null
+
 /-- cimvalue(value, type) for one non-list value -/
-def cimvalue1 (ty : Str) (v : PV) : R Unit :=
+def cimvalue1 (ty : Str) (v : PV) : R Atom :=
   match v with
-  | .none => pure ()
+  | .none => pure .null
   | v =>
-    if ty = "boolean".toList then pure ()
-    else if ty = "string".toList ∨ ty = "char16".toList then pure ()
+    if ty = "boolean".toList then pure (.bool (pvTruth v))
+    else if ty = "string".toList ∨ ty = "char16".toList then pure (pvAtom v)
     else if ty = "reference".toList then
       match v with
-      | .path _ => pure ()
-      | .str s => if C.wbemUriOk s then pure () else .error .valueError
+      | .path p => pure (.ref p)
+      | .str s => match C.wbemUri s with
+        | some p => pure (.ref p)
+        | none => .error .valueError
       | _ => .error .typeError
     else convScalar C ty v
 
-def cimvalueStrs (ty : Str) : List (Option Str) → R Unit
-  | [] => pure ()
-  | none :: rest => cimvalueStrs ty rest
-  | some s :: rest => do cimvalue1 C ty (.str s); cimvalueStrs ty rest
+def cimvalueStrs (ty : Str) : List (Option Str) → R (List Atom)
+  | [] => pure []
+  | none :: rest => do
+    let r ← cimvalueStrs ty rest
+    pure (.null :: r)
+  | some s :: rest => do
+    let a ← cimvalue1 C ty (.str s)
+    let r ← cimvalueStrs ty rest
+    pure (a :: r)
 
-def cimvaluePaths (ty : Str) : List (Option Path) → R Unit
-  | [] => pure ()
-  | none :: rest => cimvaluePaths ty rest
-  | some p :: rest => do cimvalue1 C ty (.path p); cimvaluePaths ty rest
+def cimvaluePaths (ty : Str) : List (Option Path) → R (List Atom)
+  | [] => pure []
+  | none :: rest => do
+    let r ← cimvaluePaths ty rest
+    pure (.null :: r)
+  | some p :: rest => do
+    let a ← cimvalue1 C ty (.path p)
+    let r ← cimvaluePaths ty rest
+    pure (a :: r)
 
-def cimvaluePVs (ty : Str) : List PV → R Unit
-  | [] => pure ()
-  | v :: rest => do cimvalue1 C ty v; cimvaluePVs ty rest
+def cimvaluePVs (ty : Str) : List PV → R (List Atom)
+  | [] => pure []
+  | v :: rest => do
+    let a ← cimvalue1 C ty v
+    let r ← cimvaluePVs ty rest
+    pure (a :: r)
+
+def atomVal (a : Atom) : Val :=
+  match a with
+  | .null => .null
+  | a => .scalar a
 
 /-- mirrors pywbem/_cim_obj.py: cimvalue(value, type) -/
-def cimvalue (v : PV) (ty : Option Str) : R Unit :=
+def cimvalue (v : PV) (ty : Option Str) : R Val :=
   match v with
-  | .none => pure ()
+  | .none => pure .null
   | v => do
     let ty ← (match ty with
       | some t => pure t
       | none => cimtypeOf v)
     match v with
-    | .strs l => cimvalueStrs C ty l
-    | .paths l => cimvaluePaths C ty l
-    | .embs l => cimvaluePVs C ty l
-    | v => cimvalue1 C ty v
+    | .strs l => do
+      let r ← cimvalueStrs C ty l
+      pure (.array r)
+    | .paths l => do
+      let r ← cimvaluePaths C ty l
+      pure (.array r)
+    | .embs l => do
+      let r ← cimvaluePVs C ty l
+      pure (.array r)
+    | v => do
+      let a ← cimvalue1 C ty v
+      pure (atomVal a)
+
+/-- the value of a 'reference'-typed output parameter: stored as parsed -/
+def pvVal : PV → Val
+  | .none => .null
+  | .strs l => .array (l.map (fun o => match o with | some s => Atom.str s | none => .null))
+  | .paths l => .array (l.map (fun o => match o with | some p => Atom.ref p | none => .null))
+  | .embs l => .array (l.map pvAtom)
+  | v => atomVal (pvAtom v)
 
 end
 
@@ -593,7 +649,7 @@ inductive Res where
   | qdecl (q : QualDecl)
   | pullI (l : List Inst) (eos : Bool) (ctx : Option Str) (qrc : Option Cls)
   | pullP (l : List Path) (eos : Bool) (ctx : Option Str)
-  | invoke (rvNone : Bool) (outs : List Str)
+  | invoke (rv : Val) (outs : List (Str × Val))     -- (ReturnValue, OutputParameters in response order)
 
 def isInstPath : Path → Bool
   | .inst .. => true
@@ -763,12 +819,15 @@ def findQueryResultClass : List RspKid → R Cls
     else findQueryResultClass rest
   | _ :: rest => findQueryResultClass rest
 
-def unpackBoolStrs : List (Option Str) → R Unit
-  | [] => pure ()
-  | none :: rest => unpackBoolStrs rest
+def unpackBoolStrs : List (Option Str) → R (List Atom)
+  | [] => pure []
+  | none :: rest => do
+    let r ← unpackBoolStrs rest
+    pure (.null :: r)
   | some s :: rest => do
-    let _ ← unpackBoolean s
-    unpackBoolStrs rest
+    let b ← unpackBoolean s
+    let r ← unpackBoolStrs rest
+    pure ((match b with | some x => Atom.bool x | none => .null) :: r)
 
 def pvIsNone : PV → Bool
   | .none => true
@@ -778,23 +837,23 @@ def pvIsNone : PV → Bool
     elements (a string, or the string items of a list) is converted with TupleParser.unpack_boolean
     (invalid text: CIMXMLParseError, empty text: None); everything else goes through cimvalue().
     Result: whether the converted value is None -/
-def xmlCimvalue (C : EnvCodec) (v : PV) (ty : Option Str) : R Bool :=
+def xmlCimvalue (C : EnvCodec) (v : PV) (ty : Option Str) : R Val :=
   if ty = some "boolean".toList then
     match v with
     | .strs l => do
-      unpackBoolStrs l
-      pure false
-    | .paths _ => pure false
-    | .embs _ => pure false
+      let r ← unpackBoolStrs l
+      pure (.array r)
+    | .paths l => pure (pvVal (.paths l))
+    | .embs l => pure (pvVal (.embs l))
     | .str s => do
       let b ← unpackBoolean s
-      pure b.isNone
-    | v => do
-      cimvalue C v ty
-      pure (pvIsNone v)
-  else do
-    cimvalue C v ty
-    pure (pvIsNone v)
+      pure (match b with | some x => .scalar (.bool x) | none => .null)
+    | v => cimvalue C v ty
+  else cimvalue C v ty
+
+def valIsNull : Val → Bool
+  | .null => true
+  | _ => false
 
 /-- mirrors _methodcall after the envelope checks -/
 def methodResult (C : EnvCodec) (kids : List RspKid) : R Res :=
@@ -803,21 +862,21 @@ def methodResult (C : EnvCodec) (kids : List RspKid) : R Res :=
     let _ ← raiseCimError code
     perr
   | _ => do
-    let (rvNone, rest) ← (match kids with
+    let (rv, rest) ← (match kids with
       | .retval pt v :: rest => do
-        let isNone ← catchVT (xmlCimvalue C v pt)
-        pure (isNone, rest)
-      | _ => pure (true, kids))
+        let x ← catchVT (xmlCimvalue C v pt)
+        pure (x, rest)
+      | _ => pure (Val.null, kids))
     let outs ← outLoop rest
-    pure (.invoke rvNone outs)
+    pure (.invoke rv outs)
 where
-  outLoop : List RspKid → R (List Str)
+  outLoop : List RspKid → R (List (Str × Val))
     | [] => pure []
     | .param name pt v :: rest => do
-      let _ ← (if pt = some "reference".toList then pure false
+      let x ← (if pt = some "reference".toList then pure (pvVal v)
                else catchVT (xmlCimvalue C v pt))
       let r ← outLoop rest
-      pure (name :: r)
+      pure ((name, x) :: r)
     | _ :: _ => perr          -- ERROR / RETURNVALUE at an invalid position
 
 /-- the per-operation result handling -/
